@@ -2,7 +2,7 @@ SPECIFICATION Spec
 CONSTANTS
   Mode = "dec"
   Step = 257
-  DecRange = 70000
+  DecRange = 40000
   U8 <- Utf8
   WR <- Write
   TD <- ToDec
